@@ -181,6 +181,13 @@ def run_case(case, rec):
                             for q_ in range(case["nparams"])}
             else:
                 pins[nm], vals[nm], eqps[nm] = None, None, {}
+        # the three per-network dictionaries are written with unrelated key insertion orders
+        def reorder(d, salt):
+            ks = list(d)
+            perm = np.random.default_rng([case["key"], salt]).permutation(len(ks))
+            return {ks[i]: d[ks[i]] for i in perm}
+
+        pins, vals, eqps = reorder(pins, 1), reorder(vals, 2), reorder(eqps, 3)
         J = lambda d: {k: (None if v is None else jnp.asarray(v)) for k, v in d.items()}
         g = guard.call(jinns.data.DataGeneratorObservationsMultiPINNs, b, J(pins), J(vals),
                        observed_eq_params_dict={k: {kk: jnp.asarray(vv) for kk, vv in v.items()} for k, v in eqps.items()},
